@@ -66,6 +66,30 @@ def all_deep_concrete(vs):
     return all(deep_concrete(v) for v in vs)
 
 
+def concretize_bytes(v):
+    """real bytes/bytearray for an SBytes whose length and content are concrete, else None"""
+    n = v.concrete_len()
+    if n is None or n > 4096:
+        return None
+    out = bytearray()
+    for k in range(n):
+        b = z3.simplify(v.at(z3.IntVal(k)))
+        if not z3.is_bv_value(b):
+            return None
+        out.append(b.as_long())
+    return out if v.mutable else bytes(out)
+
+
+def concretize_args(args, kwargs):
+    """native calls get real bytes for fully concrete symbolic byte strings (copies: fine for pure functions)"""
+    def conv(v):
+        if isinstance(v, SBytes):
+            c = concretize_bytes(v)
+            return v if c is None else c
+        return v
+    return [conv(a) for a in args], {k: conv(v) for k, v in kwargs.items()}
+
+
 def pytype(v):
     """representative Python type of a value"""
     if isinstance(v, SBool):
@@ -304,13 +328,15 @@ def _binop(I, op, a, b):
             r.lowzeros = b
         return r
     if t is ast.RShift:
-        p = pow2(I, b)
-        r = floordiv(I, a, p)
-        if isinstance(b, int) and isinstance(a, SInt) and a.bv is not None and not a.bv[2] and isinstance(r, SInt):
+        if isinstance(b, int) and isinstance(a, SInt) and a.bv is not None and not a.bv[2]:
             tbv, w = a.bv[0], a.bv[1]
-            if b < w:
-                r = SInt(r.z, (z3.Extract(w - 1, b, tbv), w - b, False))
-        return r
+            if b >= w:
+                return 0
+            if b == 0:
+                return a
+            return from_bv(z3.simplify(z3.Extract(w - 1, b, tbv)), w - b)
+        p = pow2(I, b)
+        return floordiv(I, a, p)
     if t in (ast.BitAnd, ast.BitOr, ast.BitXor):
         return bitop(I, op, a, b)
     if t is ast.Pow:
@@ -373,6 +399,8 @@ def bvview(I, v, w, in_range=False):
         v = int(v)
     if isinstance(v, int):
         return z3.BitVecVal(v % (1 << w), w)
+    if isinstance(v, SBool):
+        v = SInt(zint(v), rng=(0, 1))
     if v.bv is not None:
         t, vw, signed = v.bv
         if vw == w:
@@ -382,13 +410,30 @@ def bvview(I, v, w, in_range=False):
         return z3.SignExt(w - vw, t) if signed else z3.ZeroExt(w - vw, t)
     # unbounded int: tie a fresh bit-vector to v mod 2^w (avoids Int2BV inside terms)
     e = I.e
-    x = z3.BitVec(e.newname("bvv"), w)
-    if in_range or (v.rng is not None and 0 <= v.rng[0] and v.rng[1] < (1 << w)):
-        e.assume(z3.BV2Int(x, False) == v.z)
-        v.bv = (x, w, False)  # cache: the same Python object is often reused (e.g. [pad] * n)
+    known = in_range or (v.rng is not None and 0 <= v.rng[0] and v.rng[1] < (1 << w))
+    vz = v.z if known else v.z % (1 << w)
+    if w > WIDE:
+        b2i, i2b = bridge(w)
+        x = i2b(vz)
+        e.assume(z3.And(b2i(x) == vz, (vz == 0) == (x == 0),
+                        (vz >= (1 << (w - 1))) == (z3.Extract(w - 1, w - 1, x) == 1)))
     else:
-        e.assume(z3.BV2Int(x, False) == v.z % (1 << w))
+        x = z3.BitVec(e.newname("bvv"), w)
+        e.assume(z3.BV2Int(x, False) == vz)
+    if known:
+        v.bv = (x, w, False)  # cache: the same Python object is often reused (e.g. [pad] * n)
     return x
+
+
+WIDE = 16  # bit-vectors wider than this are bridged to int by uninterpreted functions (see from_bv)
+_BRIDGE = {}
+
+
+def bridge(w):
+    if w not in _BRIDGE:
+        _BRIDGE[w] = (z3.Function(f"b2i{w}", z3.BitVecSort(w), z3.IntSort()),
+                      z3.Function(f"i2b{w}", z3.IntSort(), z3.BitVecSort(w)))
+    return _BRIDGE[w]
 
 
 CUR_ENGINE = None  # set by the runner for the path being executed (one path at a time per process)
@@ -409,7 +454,21 @@ def from_bv(bv, w):
         return SInt(hit[0], (bv, w, False), rng=(0, (1 << w) - 1))
     if z3.is_bv_value(bv):
         return SInt(z3.IntVal(bv.as_long()), (bv, w, False), rng=(bv.as_long(), bv.as_long()))
-    return SInt(z3.BV2Int(bv, False), (bv, w, False))
+    if e is not None and w > WIDE:
+        # wide vectors: the int<->bit-vector bridge is a pair of uninterpreted functions with the axioms
+        # instantiated at the terms that occur (range, inverse, zero and sign-bit links).  This is weaker than the
+        # real bv2int (so every proof remains valid) and keeps wide bv2int terms out of the solver.
+        key = ("b2i", bv.get_id())
+        hit = e.bv_alias.get(key)
+        if hit is None:
+            b2i, i2b = bridge(w)
+            z = b2i(bv)
+            e.assume(z3.And(z >= 0, z < (1 << w), i2b(z) == bv, (z == 0) == (bv == 0),
+                            (z >= (1 << (w - 1))) == (z3.Extract(w - 1, w - 1, bv) == 1)))
+            hit = (z, bv)
+            e.bv_alias[key] = hit
+        return SInt(hit[0], (bv, w, False), rng=(0, (1 << w) - 1))
+    return SInt(z3.BV2Int(bv, False), (bv, w, False), rng=(0, (1 << w) - 1))
 
 
 def bitop(I, op, a, b):
@@ -424,7 +483,16 @@ def bitop(I, op, a, b):
         if not ws:
             raise Undecided("& of two unbounded/negative ints")
         w = min(ws)  # the result fits in the width of any non-negative bounded operand
-        return from_bv(bvview(I, a, w) & bvview(I, b, w), w)
+        for x, y in ((a, b), (b, a)):
+            # contiguous low mask on a vector: plain extraction
+            if isinstance(x, int) and (x & (x + 1)) == 0 and isinstance(y, SInt) and y.bv is not None:
+                k = x.bit_length()
+                if k == 0:
+                    return 0
+                if k >= y.bv[1] and not y.bv[2]:
+                    return y
+                return from_bv(z3.simplify(z3.Extract(k - 1, 0, y.bv[0])), k)
+        return from_bv(z3.simplify(bvview(I, a, w) & bvview(I, b, w)), w)
     if wa is None or wb is None:
         # x | (y << s) with 0 <= x < 2^s provable on this path: the operands share no bit, so | and ^ are +
         for x, y in ((a, b), (b, a)):
@@ -1127,8 +1195,21 @@ def symmethod(I, o, name, args, kwargs):
         if name in ("hex", "__str__", "__repr__", "__format__"):
             return Opaque(name)
     if isinstance(o, SBytes):
+        if name not in ("extend", "append", "__iadd__", "clear", "insert", "pop", "remove", "reverse", "copy"):
+            c = concretize_bytes(o)
+            if c is not None:
+                cargs, ckw = concretize_args(args, kwargs)
+                if all_concrete(cargs) and all_concrete(ckw.values()):
+                    try:
+                        r = getattr(c, name)(*cargs, **ckw)
+                    except Exception as ex:
+                        raise PyRaise(ex, implicit=True)
+                    return SBytes.const(r, True) if isinstance(r, bytearray) else r
         if name == "hex":
             return Opaque("hex")
+        if name == "clear" and o.mutable:
+            o.ln = z3.IntVal(0)
+            return None
         if name == "decode":
             if I.api is None:
                 raise Undecided("decode")
